@@ -279,16 +279,6 @@ func replyKinds(out []byte) string {
 	return pg.Kinds(msgs)
 }
 
-type expMsg struct {
-	T     byte
-	Tag   string
-	NCols int
-	Vals  [][]byte
-	Code  string
-	Msg   string
-	Names []string
-}
-
 // judge replays the script through the reference model and compares transcript,
 // per-operation byte attribution, return classes and Written().
 func (ch c05) judge(c *core.Ctx, idx int, s c05script, text string, out []byte, closed bool, evs []trEvent, full []byte) bool {
